@@ -326,7 +326,7 @@ WITNESS = {  # the 5-op history of the fixed finding F1 (with creations spelled 
 
 def generate(run, tier):
     rng = run.rng("gen")
-    n = 700 if tier == "quick" else 6000
+    n = 1200 if tier == "quick" else 12000
     return [_gen_case(rng, tier) for _ in range(n)]
 
 
